@@ -44,7 +44,7 @@ var _ plugintypes.Operator = (*pm)(nil)
 func newPM(options plugintypes.OperatorOptions) (plugintypes.Operator, error) {
 	data := options.Arguments
 
-	data = strings.ToLower(data)
+	data = asciiToLower(data)
 	dict := strings.Split(data, " ")
 	builder := ahocorasick.NewAhoCorasickBuilder(ahocorasick.Opts{
 		AsciiCaseInsensitive: true,
@@ -56,6 +56,24 @@ func newPM(options plugintypes.OperatorOptions) (plugintypes.Operator, error) {
 	m, _ := memoizeDo(options.Memoizer, data, func() (any, error) { return builder.Build(dict), nil })
 	// TODO this operator is supposed to support snort data syntax: "@pm A|42|C|44|F"
 	return &pm{matcher: m.(ahocorasick.AhoCorasick), minLen: minPatternLen(dict)}, nil
+}
+
+// asciiToLower folds A-Z only. The matcher is ASCII-case-insensitive, so the phrases must keep
+// every other byte as written: strings.ToLower would rewrite non-ASCII letters (and turn invalid
+// UTF-8 bytes into U+FFFD), after which the phrase can never match the bytes it was written with.
+func asciiToLower(s string) string {
+	for i := 0; i < len(s); i++ {
+		if c := s[i]; c >= 'A' && c <= 'Z' {
+			b := []byte(s)
+			for j := i; j < len(b); j++ {
+				if c := b[j]; c >= 'A' && c <= 'Z' {
+					b[j] = c + ('a' - 'A')
+				}
+			}
+			return string(b)
+		}
+	}
+	return s
 }
 
 func (o *pm) Evaluate(tx plugintypes.TransactionState, value string) bool {
